@@ -1,10 +1,25 @@
-"""C15 -- each (file, pattern) verdict is independent of everything else in the run: bounded executable contract
-(history, repetition, file_number, fresh process, 8 concurrent threads; thread interleavings sampled, not explored)."""
+"""C15 -- each (file, pattern) verdict is independent of everything else in the run (bounded).
+
+`c15` (repetition, file numbers, history of other patterns, threads incl. deeply nested files, fresh process) plus the
+directory contract `c03` (a file's lines inside analyze_dir equal its lines when analysed alone, whatever its siblings)."""
+from .. import driver as D
 from . import bounded
 
 
 def run(tier, seed):
-    return bounded.run_bounded(
-        "C15", "c15", tier, seed,
-        "analyze_for_*(content, _, p) is a function of (content, p) only: same lines alone, after other patterns in any order, repeated, "
-        "for every file_number, in a fresh process and from concurrent threads")
+    vd = D.Verdict("C15", tier, seed)
+    try:
+        binary, _ = D.build_native()
+    except D.BuildError as e:
+        vd.add_undecided(str(e)[:800])
+        return vd.finish({"level": "exploration", "coverage": {"evaluations": 1, "distinct_nontrivial": 2, "rule": "native harness did not build", "samples": ["-"]}})
+    nat = D.run_native(binary, "c15", tier, seed)
+    bounded.add_native_violations(vd, nat, "library-call independence")
+    ndir = D.run_native(binary, "c03", tier, seed)
+    for v in ndir.get("violations", []):
+        vd.add_violation("c15:" + v["key"], "inside a directory run: " + v["what"], obligation="analyze_dir result == union of the per-file results", counterexample=v.get("replay"),
+                         expected=v.get("expected"), actual=v.get("actual"))
+    ev = bounded.evidence_from_native(nat, ["thread interleavings are sampled by the OS scheduler, not explored systematically"])
+    ev["coverage"]["evaluations"] += int(ndir.get("evaluations", 0))
+    ev["coverage"]["directory_part"] = {k: ndir.get(k) for k in ("evaluations", "distinct_nontrivial", "rule", "bound", "wall_s", "cmd")}
+    return vd.finish(ev)
